@@ -1007,6 +1007,14 @@ fn solo_corpus(rng: &mut Rng) -> Vec<String> {
         "(std.len([1, 2, 3]), std.convert.to_string(12), std.convert.to_int(2.5))",
         "x := mut int 5; (x /= 2, x %= 2, x <<= 3, x >>= 1, x **= 2, x &= 12, x |= 3, x ^= 5, x -= 1, x = 9)",
         "x := mut int 5; (x += 1, x /= 0, x += 1)",
+        // mutable state a run creates for itself must be created by THAT run (nothing hoisted into the parsed code):
+        // the cell an exhausted `? mut int` filter yields, cells made by `mut` in functions and loops, iterator cursors
+        "cs := [mut int 1]; it := cs~ ? mut int; it(); e := it().1; e += 20; *e",
+        "cs := [(mut int 1, 2)]; it := cs~ ? (mut int, int); it(); e := it().1; (e.0) += 20; *(e.0)",
+        "f := () -> mut int { return mut 0 }; a := f(); b := f(); a += 1; b += 10; (*a, *b)",
+        "i := mut int 0; s := mut int 0; while *i < 3 { i += 1; c := mut 10; c += *i; s += *c; }; *s",
+        "a := [1, 2, 3]; i := mut int 0; s := mut int 0; while *i < 2 { i += 1; s += a~ $+; }; *s",
+        "mk := () -> () -> int { n := mut 0; return () -> int { return n += 1 } }; g := mk(); h := mk(); (g(), g(), h())",
     ]
     .iter()
     .map(|s| s.to_string())
